@@ -235,6 +235,31 @@ def rule_filewrapper(ctx, rep):
         rep.find('R-FILEWRAPPER', 'block_tokenizer.FileWrapper.line_number', 'start_line+_index',
                  'after reading the i-th line, line_number() is not start_line + i (or the cursor does not start at -1)',
                  loc(model.unit_of(fw), fw.node))
+    # exhaustion: when there is no further line, next() raises StopIteration and leaves the cursor on the last
+    # line - readers that run to the end of the input and then hand trailing blank lines back rely on it
+    problems = []
+    try:
+        it.call(it.getattr(w, '__next__'), [], {})
+        problems.append('next() past the last line does not raise StopIteration')
+    except Raised as r:
+        if r.exc.kind != 'StopIteration':
+            problems.append('next() past the last line raises %s' % r.exc.kind)
+    try:
+        ln = it.call(it.getattr(w, 'line_number'), [], {})
+        if Aff.lift(ln) is None or Aff.lift(ln) != S.add(Aff({}, 1)):
+            problems.append('after a failed next() line_number() is %r, not that of the last line' % (ln,))
+        if it.call(it.getattr(w, 'peek'), [], {}) is not None:
+            problems.append('peek() at the end of the input is not None')
+        it.call(it.getattr(w, 'backstep'), [], {})
+        if it.call(it.getattr(w, 'peek'), [], {}) is not lines[1]:
+            problems.append('one backstep() after running off the end does not hand the last line back')
+    except Raised as r:
+        problems.append('FileWrapper raises %s at the end of the input' % r.exc.kind)
+    rep.obligation('R-FILEWRAPPER', not problems, {'end of input': problems or 'StopIteration, cursor stays on the last line'})
+    for p_ in problems:
+        rep.find('R-FILEWRAPPER', 'block_tokenizer.FileWrapper.__next__', 'end-of-input', p_ + ': a reader that runs to the end of the '
+                 'input and hands its trailing blank lines back (indented code) hands back one too few or too many',
+                 loc(model.unit_of(fw), fw.node), witness='-     code\n\n- b')
     # default start_line = 1 at top level
     w2 = it.construct(fw, [lines], {})
     ok = w2.attrs.get('start_line') == 1
